@@ -565,13 +565,36 @@ def vyukov_bounded(ctx):
                               "strong operation reports full/empty only after re-reading its own and the opposite position",
                               "the strong operation reports %s without re-reading %s (it may fail although the queue is not %s)" % (
                                   "full" if f == "do_try_push" else "empty", other, "full" if f == "do_try_push" else "empty"), fn.where(r), fn=fn)
+    # the destructor destroys exactly the cells of the positions [dequeue_pos, enqueue_pos) - finite execution for a ring of 4 cells, every
+    # dequeue position 0..9 and every fill level 0..4 (in particular the completely full ring, where both ends denote the same cell)
+    from .evalx import run_until
     for fn in flow._shapes(ctx, Q + "~vyukov_bounded_queue"):
-        ok = bool(flow.find(fn, DTOR))
-        conds = [fn.expr(blk["cond"]) for b, blk in fn.blocks.items() if "cond" in blk and blk.get("term") in ("ForStmt", "WhileStmt")]
-        txt = " ".join(_deep(fn, blk["cond"]) for b, blk in fn.blocks.items() if "cond" in blk and blk.get("term") in ("ForStmt", "WhileStmt"))
-        ok = ok and ("enqueue_pos" in txt or "dequeue_pos" in txt)
-        ctx.check(ok, "OWN.destructor", Q + "~vyukov_bounded_queue#live-range", "destructor destroys exactly [dequeue_pos, enqueue_pos)",
-                  "the destructor must destroy the live range [dequeue_pos, enqueue_pos)", fn.where(), fn=fn)
+        bad = None
+        n_runs = 0
+        try:
+            for d_ in range(0, 10):
+                for fill in range(0, 5):
+                    e_ = d_ + fill
+                    visited = []
+
+                    def on_event(f, ev_, env, visited=visited):
+                        nn = f.nodes[ev_]
+                        is_idx = nn["k"] == "index" or (nn["k"] == "call" and nn.get("callee", "").endswith("operator[]"))
+                        if is_idx and f.field_of(f.kids(ev_)[0]).endswith("cells"):
+                            visited.append(evalx(f, f.kids(ev_)[1], env))
+                    env0 = {"load:dequeue_pos": d_, "load:enqueue_pos": e_, "index_mask": 3, "this.index_mask": 3, "load:sequence": 0}
+                    run_until(fn, env0, lambda f, x: False, on_event=on_event)
+                    n_runs += 1
+                    want = sorted((p_ & 3) for p_ in range(d_, e_))
+                    if sorted(visited) != want and bad is None:
+                        bad = (d_, e_, fill, sorted(visited), want)
+        except Unknown as ex:
+            ctx.broken.append("~vyukov_bounded_queue not executable (%s)" % ex)
+            continue
+        ctx.check(bad is None and bool(flow.find(fn, DTOR)), "OWN.destructor", Q + "~vyukov_bounded_queue#live-range",
+                  "destructor destroys exactly the cells of [dequeue_pos, enqueue_pos) in all %d (position, fill level) cases" % n_runs,
+                  "with dequeue_pos=%s, enqueue_pos=%s (%s of 4 cells in use) the destructor visits cells %s, the stored elements are in cells %s: elements are leaked "
+                  "(never destroyed) or cells without an element are destroyed" % (bad or (0, 0, 0, [], [])), fn.where(), fn=fn)
 
 
 # ---------------------------------------------------------------------------------------------------------------
